@@ -40,7 +40,13 @@ func TestVerifBulkInserter(t *testing.T) {
 	defer em.Close()
 	logx.Disable()
 	rnd := verifRand(31)
-	sizes := []int{maxBulkRows, 2*maxBulkRows + 300, 3*maxBulkRows + 100, 700, 2 * maxBulkRows}
+	// workload sizes around the row threshold of the buffer (zz_verif_c11_bisteer_test.go: the package
+	// constant, else measured; the usual value when neither is available - it only shapes the workload)
+	rows, ok := biThreshold()
+	if !ok || rows > 5000 {
+		rows = 1000
+	}
+	sizes := []int{rows, 2*rows + 300, 3*rows + 100, 700, 2 * rows}
 	watchdog := time.Duration(verifEnvInt("VERIF_PE_WATCHDOG_S", 20)) * time.Second
 	for r, total := range sizes {
 		var nb, done int32
@@ -67,7 +73,7 @@ func TestVerifBulkInserter(t *testing.T) {
 		if err != nil {
 			t.Fatal(err)
 		}
-		em.Emit(verifEv{"e": "reset", "kind": "bulkinserter", "thr": maxBulkRows, "mode": "stress"})
+		em.Emit(verifEv{"e": "reset", "kind": "bulkinserter", "thr": rows, "mode": "stress"})
 		np := 2 + rnd.Intn(5)
 		var next int32
 		var wg sync.WaitGroup
